@@ -9,7 +9,7 @@ IDS="$*"; [ -z "$IDS" ] && IDS="$(ls seeded)"
 missed=0
 for id in $IDS; do
   prop=$(/venv/bin/python -c "import json;print(json.load(open('seeded/$id/meta.json'))['caught_by'][0])")
-  git -C /repo apply "seeded/$id/patch.diff" || { echo "$id: patch does not apply"; missed=$((missed+1)); continue; }
+  git -C /repo apply "$PWD/seeded/$id/patch.diff" || { echo "$id: patch does not apply"; missed=$((missed+1)); continue; }
   out=$(./check "$prop" --tier quick 2>&1); rc=$?
   git -C /repo checkout -- .
   sig=$(echo "$out" | grep -m1 "^violation:" | cut -c1-160)
